@@ -246,6 +246,7 @@ class Driver:
         w.faults.enabled = False
         w.faults.script = []
         w.sim.stall_p = 0.0          # a stalled disk is a fault too
+        w.sim.stall_boost = None
         end = w.sim.now + limit
         # let background daemon events fire first
         if self.pending_bg:
@@ -318,6 +319,7 @@ class Driver:
         w = self.w
         w.faults.enabled = True
         w.sim.stall_p = w.k['stall_p']
+        w.sim.stall_boost = tuple(w.k['stall_boost']) if w.k.get('stall_boost') else None
 
     LIVENESS_PROP = 'C01'
     AUDIT_PROPS = ('C01', 'C02', 'C03')
